@@ -412,6 +412,55 @@ def read_size_exactness(ctx, chk, rule):
             chk.ok(rule, q, f'size parameter `{p}`', detail='never re-bound; min() only with the remaining bytes; delegated unchanged; inflate loop runs until enough bytes or end of stream')
 
 
+def seek_atomicity(ctx, chk, rule):
+    prog = ctx.prog
+    names = ['utils:LazyLooseStream.seek', 'utils:PackedObjectReader.seek', 'utils:CallbackStreamWrapper.seek', ZL + '.seek', ZL + '._seek_internal']
+    UNDER = ('_stream', '_fhandle', '_compressed_stream', '_lazy_uncompressed_stream')
+    for q in names:
+        chk.require(prog.has_fn(q), f'{q} not found')
+        f = prog.fn(q)
+        g = ctx.icfg(q, {}, Policy(depth=0), key='d0')
+        moves = [n for n in g.nodes if n.kind == 'call' and isinstance(n.ast, ast.Call) and isinstance(n.ast.func, ast.Attribute) and n.ast.func.attr == 'seek'
+                 and any(u in names_in(n.ast.func.value) for u in UNDER)]
+        bad = None
+        for m in moves:
+            seen, todo = {m.id}, [m]
+            while todo and bad is None:
+                x = todo.pop()
+                for e in x.succ:
+                    if e.kind != 'n' or e.dst.id in seen:
+                        continue
+                    seen.add(e.dst.id)
+                    if e.dst.kind == 'raise' and isinstance(e.dst.ast, ast.Raise):
+                        bad = (m, e.dst)
+                        break
+                    todo.append(e.dst)
+        if bad is not None:
+            chk.bad(rule, q, f'{norm(bad[0].ast)[:50]} ... {norm(bad[1].ast)[:50]}', f'`{norm(bad[0].ast)[:60]}` moves the underlying stream and a `raise` (line {bad[1].ast.lineno}) can still follow: a seek that is '
+                    'rejected (e.g. out of range) leaves the stream at the probe position -- the caller that catches the error sees tell() and read() at the wrong place (io.BytesIO leaves the position unchanged)',
+                    where=f'{f.module.relpath}:{bad[0].ast.lineno}')
+        else:
+            chk.ok(rule, q, f'{len(moves)} move(s) of the underlying stream', detail='no raise reachable after a move')
+    # the switch to the uncompressed copy: the buffered state is dropped only after the step that can fail (open_stream) succeeded
+    zs = prog.fn(ZL + '.seek')
+    opens = [n for n in walk_local(zs.node) if isinstance(n, ast.Call) and isinstance(n.func, ast.Attribute) and n.func.attr == 'open_stream']
+    for o in opens:
+        st = o
+        while not isinstance(st, ast.stmt):
+            st = st._parent
+        blk_owner = st._parent
+        for field in ('body', 'orelse', 'finalbody'):
+            blk = getattr(blk_owner, field, None)
+            if isinstance(blk, list) and st in blk:
+                early = [x for x in blk[:blk.index(st)] if isinstance(x, (ast.Assign, ast.AugAssign)) and any(isinstance(t, ast.Attribute) and norm(t.value) == 'self'
+                                                                                                              for t in (x.targets if isinstance(x, ast.Assign) else [x.target]))]
+                if early:
+                    chk.bad(rule, zs.qualname, norm(early[0])[:80], f'`{norm(early[0])[:60]}` changes the decompresser\'s state before `open_stream()`, which can fail (the loose copy has to be written): after '
+                            'a failed seek the stream has lost buffered bytes although its reported position did not change', where=f'{zs.module.relpath}:{early[0].lineno}')
+                else:
+                    chk.ok(rule, zs.qualname, 'state untouched before open_stream()', detail='', nontrivial=False)
+
+
 def _ancestors_until(n, stop):
     n = getattr(n, '_parent', None)
     while n is not None and n is not stop:
@@ -785,6 +834,9 @@ def run(ctx, host=None):
     from .common import loose_write_ownership
     loose_write_ownership(ctx, chk, R11, 'the lazy loose stream (and every seek that falls back to it) trusts any file it finds under the key: a copy that is still being written, or was left '
                           'half-written by an interruption, is then served as the object -- truncated reads, wrong seek(0, 2)')
+
+    R12 = chk.rule('C07.R12', 'a rejected seek leaves the stream where it was: no `raise` is reachable after the underlying stream has been moved (no probing seek); state is not cleared before the step that can fail', 4)
+    seek_atomicity(ctx, chk, R12)
 
     R6 = chk.rule('C07.R6', 'decompresser rewind (re-inflate from 0) resets every piece of decompression state that __init__ initialises', 1)
     rewind_reset(ctx, chk, R6)
